@@ -6,6 +6,7 @@ Definition check_by_id (id : N) (s : sx) : bool :=
   match id with
   | 3%N => SST.SSTC.check_sx 3 s
   | 8%N => SST.SSTC.check_sx 8 s
+  | 9%N => SST.C09.check_sx s
   | 11%N => SST.SSTC.check_sx 11 s
   | 15%N => SST.SSTC.check_sx 15 s
   | 4%N => C04.C04.check_sx s
